@@ -242,6 +242,12 @@ func (g *goTranslator) call(n *ast.CallExpr, old bool, bound map[string]goVar) g
 		return goVal{src: fmt.Sprintf("binary.BigEndian.Uint%s([]byte(%s)[%s:])", bits, tr(0).src, tr(1).src), typ: t}
 	case "bit":
 		return goVal{src: fmt.Sprintf("(((%s) >> %s) & 1 == 1)", tr(0).src, tr(1).src), typ: boolT}
+	case "deepeq":
+		if len(n.Args) != 2 {
+			g.failf("deepeq with skipped fields has no run-time counterpart")
+		}
+		g.imports["reflect"] = true
+		return goVal{src: fmt.Sprintf("reflect.DeepEqual(%s, %s)", tr(0).src, tr(1).src), typ: boolT}
 	case "iserr":
 		g.imports["errors"] = true
 		return goVal{src: fmt.Sprintf("errors.Is(%s, %s)", tr(0).src, tr(1).src), typ: boolT}
@@ -249,7 +255,7 @@ func (g *goTranslator) call(n *ast.CallExpr, old bool, bound map[string]goVar) g
 		g.imports["unsafe"] = true
 		g.needAlias = true
 		return goVal{src: fmt.Sprintf("govc%s(%s, %s)", strings.Title(name), tr(0).src, tr(1).src), typ: boolT}
-	case "fresh", "ptr", "buflen", "bufat", "bufopen", "eqbytes", "oldbytes", "forallb", "existsb", "forallint", "existsint", "instant", "clock", "visited", "forallkey", "existskey", "oncedone", "allocated", "deepeq", "sent", "closed", "lastsent", "samekey", "forallstr", "existsstr":
+	case "fresh", "ptr", "buflen", "bufat", "bufopen", "eqbytes", "oldbytes", "forallb", "existsb", "forallint", "existsint", "instant", "clock", "visited", "forallkey", "existskey", "oncedone", "allocated", "sent", "closed", "lastsent", "samekey", "forallstr", "existsstr":
 		g.failf("builtin %s has no run-time counterpart", name)
 	}
 	// spec function
